@@ -193,9 +193,50 @@ def isolate_failures(shard, f, fail):
         shard.violation('tool failure on the whole file that no single text reproduces: skool2asm %s; skool2html %s' % (
             'ok' if ra.ok else ra.describe(), 'ok' if rh.ok else rh.describe()), {'skool': f['skool'], 'argv': f['argv']})
 
+# texts the documentation calls erroneous: they must be rejected in both modes
+NEG_TEXTS = [
+    ('#EVAL(5,3)', 'base other than 2, 10, 16'),
+    ('#FOR1(n,n)', 'required stop parameter missing'),
+    ('#IF(1) x', 'no output strings'),
+    ('#FORMAT0({nosuchfield})', 'unknown replacement field'),
+    ('#POPS', 'no snapshot was pushed'),
+    ('#PEEK x', 'required address missing'),
+    ('#LET(novalue)', 'no value'),
+    ('#MAP(1) x', 'no mappings'),
+    ('#NOSUCHMACRO', 'unknown macro'),
+    ('#EVAL(1+)', 'not an arithmetic expression'),
+    ('#FOREACH(a,b) x', 'no variable name'),
+    ('#N x', 'required value missing'),
+    ('#EVAL(1', 'no closing bracket'),
+    ('#LET(a=1)#EVAL({a}+{b})', 'unknown replacement field in an integer parameter'),
+]
+
+def run_negative(shard):
+    kinds = ['title', 'description', 'register', 'start-comment', 'mid-block', 'instruction', 'end-comment']
+    tail = '; Read-only data\nb40000 DEFB 0\n'
+    for i, (text, why) in enumerate(NEG_TEXTS):
+        kind = kinds[i % len(kinds)]
+        chunk = type('C', (), {'cid': 0, 'text': text})
+        skool, pc = single_file({'skool': tail}, chunk, kind)
+        ra, rh, asm, html, nfiles = run_tools(skool, [], 'neg')
+        shard.inc('events:negative_runs')
+        shard.case(('neg', text, kind), True)
+        if ra.exc or rh.exc and 'SkoolParsingError' not in (rh.exc or ''):
+            pass
+        a_rej = not ra.ok
+        h_rej = not rh.ok
+        if a_rej and h_rej:
+            shard.inc('observed:erroneous_rejected_in_both_modes')
+        else:
+            shard.violation('erroneous text (%s) accepted: skool2asm %s, skool2html %s\nposition: %s\ntext: %s' % (
+                why, 'rejects' if a_rej else 'accepts', 'rejects' if h_rej else 'accepts', kind, text),
+                {'skool': skool, 'argv': [], 'negative': True, 'text': text})
+
 def run(shard, spec):
     n = N_FILES[shard.tier]
     isolated = 0
+    if spec['shard'] == 0:
+        run_negative(shard)
     for fi in range(spec['shard'], n, spec['of']):
         rng = shard.rng('file', fi)
         hazard = None
@@ -253,7 +294,10 @@ def replay(shard, rp):
     ra, rh, asm, html, nfiles = run_tools(rp['skool'], rp['argv'], 'replay')
     print('skool2asm:', 'ok' if ra.ok else ra.describe())
     print('skool2html:', 'ok' if rh.ok else rh.describe())
-    if 'cid' in rp:
+    if rp.get('negative'):
+        if ra.ok or rh.ok:
+            shard.violation('replayed: erroneous text still accepted', rp)
+    elif 'cid' in rp:
         key = (rp['cid'], rp['pid'])
         av = [ref.normalise(v) for v in asm.get(key, [])]
         hv = [ref.normalise(v, html=True) for v in html.get(key, [])]
